@@ -219,3 +219,44 @@ fn c08_reply_budget_l9216() {
     }
     kani::cover!(len == PACKET_BUF_SIZE, "jumbo offender");
 }
+
+/// `create_inbound_scmp_error` is total on EVERY error `inbound_datagram_check` produces -- also for
+/// truncated datagrams, where the parsed packet view is shorter than header length + announced
+/// payload length -- and the message it builds is a ParameterProblem quoting a prefix of the
+/// offending datagram, with a pointer inside the SCION header.
+/// (Added after seeded change C08-2, which indexed the view by its announced instead of its real
+/// length on this path.)
+#[kani::proof]
+#[kani::unwind(18)]
+fn c08_inbound_error_total_n64() {
+    const N: usize = 64;
+    let buf: [u8; N] = kani::any();
+    let len: usize = kani::any();
+    kani::assume(len <= N);
+    let d = &buf[..len];
+    let peer = any_ip();
+    let err = match inbound_datagram_check(d, peer) {
+        Ok(_) => return,
+        Err(e) => e,
+    };
+    let truncated_view = match &err {
+        PacketPolicyError::MalformedPacket(..) => false,
+        PacketPolicyError::InvalidSourceAddress(v) | PacketPolicyError::InvalidPathType(v, _) => {
+            (v.header().header_len() as usize + v.header().payload_len() as usize) > v.as_slice().len()
+        }
+    };
+    let msg = create_inbound_scmp_error(err);
+    match msg {
+        scmp::model::ScmpMessage::ParameterProblem(p) => {
+            let q = p.get_offending_packet();
+            assert!(q.len() <= len, "C08.reply_quote: quote longer than the offending datagram");
+            let i: usize = kani::any();
+            kani::assume(i < q.len());
+            assert!(q[i] == buf[i], "C08.reply_quote: quote is not a prefix of the offending datagram");
+            assert!((p.pointer as usize) < 1020, "C08.reply_pointer: pointer outside any SCION header");
+            kani::cover!(truncated_view, "error for a datagram whose payload is truncated");
+            kani::cover!(q.len() == len && len > 36, "whole datagram quoted");
+        }
+        _ => assert!(false, "C08.reply_kind: reply is not a ParameterProblem"),
+    }
+}
